@@ -52,3 +52,10 @@ Proof.
     + split; [intros _; right; lia|reflexivity].
     + split; [discriminate|intros [|]; [contradiction|lia]].
 Qed.
+
+Lemma fs_alloc_delta fence cur e size al p top' :
+  fs_alloc fence cur e size al = Some (p, top') -> top' - cur = fence + align_off (cur + fence) al + size + fence.
+Proof.
+  unfold fs_alloc. destruct (cur =? 0); [discriminate|].
+  destruct (_ >? _); [discriminate|]. intros E. injection E as <- <-. lia.
+Qed.
